@@ -13,7 +13,7 @@ RULE = (
     "every double edit (thorough: exhaustive; quick: seeded sample) of 7 consistent base tables over 2 faces x 2 axes and "
     "3 faces, where an edit replaces a link by None or by any (face in {0,1,2,7}, axis in {X,Y,Q}, reverse) triple; plus "
     "seeded random reciprocal tables of 1-6 faces with self-links (must be accepted), tables with two face dimensions and "
-    "with a face dimension missing from the dataset or naming a variable / non-index coordinate instead of a dimension, and reciprocal tables one of whose faces is consistently renumbered to a number the face dimension lacks (-1, -2, nf, nf+3) (must be refused). Oracle: independent reciprocity predicate; any "
+    "with a face dimension missing from the dataset or naming a variable / non-index coordinate instead of a dimension, and reciprocal tables one of whose faces is consistently renumbered to a number the face dimension lacks (-1, -2, nf, nf+3), and reciprocal tables one of whose axes is consistently renamed to a name the Grid lacks or that are handed to a Grid lacking one of their axes (must be refused). Oracle: independent reciprocity predicate; any "
     "exception counts as refusal. Class = (table family, #links, kinds of links present, model verdict); non-trivial iff "
     "the table has at least one link."
 )
@@ -116,7 +116,8 @@ def gen_case(rng, i, tier):
         rng.shuffle(items)
         return {"family": "random-reciprocal", "table": dict(items), "nfaces": nf, "axes": ["X", "Y"]}
     kind = rng.choice(["two-face-dims", "two-face-dims-one-absent", "two-face-dims-absent-first", "facedim-absent", "facedim-absent-consistent",
-                       "relabelled-face", "relabelled-face", "facedim-is-a-variable", "facedim-is-a-variable"])
+                       "relabelled-face", "relabelled-face", "facedim-is-a-variable", "facedim-is-a-variable",
+                       "renamed-axis", "renamed-axis", "axis-the-grid-lacks"])
     nf = rng.randint(2, 4)
     t = linktable.random_reciprocal(rng, nf, p_link=0.9)
     if kind == "relabelled-face":
@@ -129,6 +130,16 @@ def gen_case(rng, i, tier):
         if not any(l is not None and (l[0] == new) for d in t.values() for lr in d.values() for l in lr) and not any(
                 l is not None for lr in t.get(new, {}).values() for l in lr):
             kind = "relabelled-face-unlinked"
+    if kind in ("renamed-axis", "axis-the-grid-lacks"):
+        # a table that is reciprocal in itself but one of whose axes is not an axis of the Grid: consistently renamed (as
+        # key and as link target) to a name the Grid does not know, or a two-axis table handed to a Grid with one axis
+        old = rng.choice(["X", "Y"])
+        new = rng.choice(["Q", "Z", "x", "XX"]) if kind == "renamed-axis" else old
+        ren = lambda a: new if a == old else a  # noqa: E731
+        t = {f: {ren(a): [None if l is None else [l[0], ren(l[1]), l[2]] for l in lr] for a, lr in d.items()} for f, d in t.items()}
+        if not any(l is not None and (a == new or l[1] == new) for d in t.values() for a, lr in d.items() for l in lr):
+            kind += "-unlinked"
+        return {"family": kind, "table": t, "nfaces": nf, "axes": ["X", "Y"] if kind.startswith("renamed") else [a for a in ("X", "Y") if a != old]}
     return {"family": kind, "table": t, "nfaces": nf, "axes": ["X", "Y"]}
 
 
@@ -173,7 +184,7 @@ def run_case(ctx, desc):
             coords["tile_holder"] = ("face", np.zeros(nf))
         fc = {"tile": t}
         expect = False
-    elif fam == "relabelled-face-unlinked":
+    elif fam in ("relabelled-face-unlinked", "renamed-axis-unlinked", "axis-the-grid-lacks-unlinked"):
         # the renumbered face carries no link at all: whether an entry without links for a non-existent face is an
         # error is not stated; not judged
         ctx.count("relabelled_face_without_links_not_judged")
